@@ -32,6 +32,54 @@ Theorem C14_markup_parse_terminates :
 Proof. exact markup_parse_terminates. Qed.
 Print Assumptions C14_markup_parse_terminates.
 
+(* nesting depth: the fuel is decremented exactly when a definition is entered, so a run that succeeds
+   with fuel n+1 nests at most n deep.  For every table the fuel |snippets|+1 succeeds (above) and any
+   larger fuel gives the same result: the nesting is never deeper than the number of snippets *)
+Theorem C14_resolve_depth :
+  forall (cfg : mconfig) (l : list anode) (fuel : nat),
+    S (length (mc_snippets cfg)) <= fuel ->
+    walk_resolve fuel cfg [] l = walk_resolve (S (length (mc_snippets cfg))) cfg [] l.
+Proof. exact resolve_depth. Qed.
+Print Assumptions C14_resolve_depth.
+
+(* alias_merge, for ALL tables and ALL decorations of the alias: an alias node is replaced by its
+   definition's forest (resolved with the definition on the guard stack); every top-level node of it is
+   merged with the alias by [merge_into] (alias attributes appended, prepended under reverseAttributes;
+   value, repeater and self-closing mark of the alias override); the alias' resolved children go under
+   the deepest last node ([attach_deepest]) *)
+Theorem C14_alias_merge :
+  forall f cfg stack nm v rp at_ ch sc s,
+    snippet_of cfg stack nm = Some s ->
+    walk_resolve (S f) cfg stack [ANode nm v rp at_ ch sc] =
+    let* parsed := parse_abbr false (snippet_env cfg) (mc_max_repeat_snip cfg) s in
+    let* resolved := walk_resolve f cfg (s :: stack) parsed in
+    let tops := map (merge_into (mc_reverse_attrs cfg) (ANode nm v rp at_ ch sc)) resolved in
+    match tops with
+    | [] => Ok []
+    | _ :: _ => let* kids := walk_resolve (S f) cfg stack ch in Ok (attach_deepest tops kids)
+    end.
+Proof. exact alias_merge. Qed.
+Print Assumptions C14_alias_merge.
+
+(* a bare alias resolves to exactly what its definition resolves to in its place *)
+Theorem C14_alias_bare_eq_definition :
+  forall f cfg stack nm s,
+    snippet_of cfg stack nm = Some s ->
+    walk_resolve (S f) cfg stack [ANode nm None None None [] false] =
+    let* parsed := parse_abbr false (snippet_env cfg) (mc_max_repeat_snip cfg) s in
+    walk_resolve f cfg (s :: stack) parsed.
+Proof. exact alias_bare_eq_definition. Qed.
+Print Assumptions C14_alias_bare_eq_definition.
+
+(* a name without definition, or whose definition is being resolved (cycle), is kept as an element *)
+Theorem C14_non_alias_kept :
+  forall f cfg stack nm v rp at_ ch sc,
+    snippet_of cfg stack nm = None ->
+    walk_resolve (S f) cfg stack [ANode nm v rp at_ ch sc] =
+    let* kids := walk_resolve (S f) cfg stack ch in Ok [ANode nm v rp at_ kids sc].
+Proof. exact non_alias_kept. Qed.
+Print Assumptions C14_non_alias_kept.
+
 (* alias = definition, COMPLETE sweep over the tables regenerated from the source: every key of the
    html, xsl and pug tables, alone, repeated inside a parent, with attributes added
    and with a child added (definition side written by harness/snippet_util.py), under the resolved
